@@ -1,0 +1,32 @@
+//go:build verif
+
+package cli
+
+// Contracts for package cli (comment-only; checked by /verif/engine).
+
+// Parse returns exactly one of: an error, *Help, *Generate, *Version
+//@ func Parse
+//@   props C17 C13
+//@   ensures err != nil ==> result == nil
+//@   ensures err == nil ==> result != nil && (dynIs[*Help](result) || dynIs[*Generate](result) || dynIs[*Version](result))
+//@   ensures len(args) == 0 ==> err != nil
+//@   ensures err == nil && dynIs[*Generate](result) ==> unboxed[*Generate](result).Config != nil && unboxed[*Generate](result).Config.EnumTransformers != nil
+
+//@ func parseGen
+//@   props C17 C16 C12
+//@   ensures err != nil ==> result == nil
+//@   ensures err == nil ==> result != nil && (dynIs[*Help](result) || dynIs[*Generate](result))
+//@   ensures err == nil && dynIs[*Generate](result) ==> unboxed[*Generate](result).Config != nil && unboxed[*Generate](result).Config.EnumTransformers != nil
+
+//@ func usageErr
+//@   props C17
+//@   ensures result != nil
+
+// exit status: usage error -> stderr + exit 1; help -> exit 0; generation error -> stderr + exit 1; otherwise normal return
+//@ func Run
+//@   props C17 C13
+//@   ensures true
+//@   at call os.Exit#1 assert err != nil
+//@   at call os.Exit#2 assert err == nil
+//@   at call os.Exit#3 assert err != nil
+//@   at return assert err == nil
